@@ -20,6 +20,8 @@ var kinds = []struct{ kind, proto, op string }{
 	{"wire", "carddav", "query"},
 	{"wire", "carddav", "sync"},
 	{"wire", "carddav", "sync"},
+	{"overlap", "caldav", ""},
+	{"overlap", "carddav", ""},
 }
 
 func run(c *fw.Ctx) {
@@ -30,7 +32,10 @@ func run(c *fw.Ctx) {
 		}
 		kd := kinds[i%len(kinds)]
 		g := newGen(c.Rand("c10/"+kd.kind+"/"+kd.proto+"/"+kd.op, i))
-		if kd.kind == "srv" {
+		if kd.kind == "overlap" {
+			cs := genOverlap(c, g, kd.proto)
+			runOverlap(c, cs)
+		} else if kd.kind == "srv" {
 			w := genWorld(c, g, kd.proto)
 			runWorld(c, w)
 			if c.WantSample() && len(w.Objs) > 0 && len(w.Objs) <= 2 && i%7 == 0 {
@@ -67,6 +72,11 @@ func replay(c *fw.Ctx, raw json.RawMessage) {
 		if json.Unmarshal(head.Case, &w) == nil {
 			runWorld(c, &w)
 		}
+	case "overlap":
+		var cs ovlCase
+		if json.Unmarshal(head.Case, &cs) == nil && cs.World != nil {
+			runOverlap(c, &cs)
+		}
 	case "wire":
 		var cs wireCase
 		if json.Unmarshal(head.Case, &cs) == nil {
@@ -80,7 +90,7 @@ func init() {
 		ID:     "C10",
 		Run:    run,
 		Replay: replay,
-		Rule: "Case i of the list is of kind kinds[i mod 12] and generated from PRNG(seed, kind, i). " +
+		Rule: "Case i of the list is of kind kinds[i mod 14] and generated from PRNG(seed, kind, i). " +
 			"Server cases: a generated backend content (0-3 calendars / address books with hostile display names, descriptions, paths, size limits, component sets; " +
 			"0-3 objects each with generated iCalendar / vCard data, entity tags, instants in various zones; objects whose backend Get fails with 403/404/423/500 or a plain error) " +
 			"held by the recording backend double behind the real caldav/carddav Handler, exercised through the real Client over an in-process HTTP client that records every exchange: " +
@@ -89,6 +99,8 @@ func init() {
 			"Writer cases: a conformant multi-status written by the harness's independent writer (davx.MultiStatusTree + xmltree.Render) in a lexical/structural variant " +
 			"(prefixes, default namespaces, white space, comments, CDATA, character references, one property per propstat, 404 propstat before/after, unknown extra properties and elements, absolute / over-escaped hrefs, folded payload lines) " +
 			"served by a scripted HTTP client to FindCalendars, FindAddressBooks, MultiGet..., Query... and carddav SyncCollection; the writer's document is first read back by the independent reader (self-check). " +
+			"Overlap cases: K=2..6 goroutines issue different MultiGet (several with request bodies of equal size) / Query / Find calls through ONE client; a gating HTTP client parks each request until all K have been handed over and forwards them one by one in a seeded order to the real handler (GOMAXPROCS 1, 2 or 4); " +
+			"the request each caller's exchange carried is read independently (method, target, root element, hrefs) and the sequential per-call oracle is applied to every caller. " +
 			"evaluations = client calls made. distinct_nontrivial = distinct abstract classes: per collection (protocol, path class, display-name class, description class, size-limit class, component-set class), " +
 			"per object and operation (protocol, operation, path class, tag class, time class) and (protocol, operation, payload feature class), per writer case (protocol, operation, variant set).",
 		Assumptions: []string{
